@@ -110,6 +110,38 @@ def check_trafo_type(ctx, pp, name, ty):
         ctx.failure("behaviour:trafo", f"trafo from type {name!r} vs explicit parameters: {d}", {"std_type": name})
 
 
+def check_second_tap_changer(ctx, pp, rng):
+    """a custom type with a second tap changer whose neutral position differs from the first one's: created from the type and from
+    the same values as explicit parameters"""
+    netA, b = small_net(pp, vn_hv=110., vn_lv=20.)
+    ty = dict(pp.load_std_type(netA, "25 MVA 110/20 kV", "trafo"))
+    ty.update(tap2_side=rng.choice(["hv", "lv"]), tap2_neutral=rng.choice([2, 3]), tap2_min=-4, tap2_max=6, tap2_step_percent=1.0,
+              tap2_step_degree=0.0, tap2_changer_type="Ratio")
+    pp.create_std_type(netA, ty, "verif_2tap", "trafo")
+    netB = copy.deepcopy(netA)
+    for net in (netA, netB):
+        pp.create_load(net, b[1], 5., 1.)
+    pp.create_transformer(netA, b[0], b[1], "verif_2tap")
+    import inspect
+    sig = inspect.signature(pp.create_transformer_from_parameters).parameters
+    kw = {k: v for k, v in ty.items() if k in sig}
+    extra = {k: v for k, v in ty.items() if k.startswith("tap2_") and k not in sig}
+    pp.create_transformer_from_parameters(netB, b[0], b[1], **kw, **extra)
+    ctx.count(("trafo", "verif_2tap", ty["tap2_side"], ty["tap2_neutral"]))
+    for col in ("tap_pos", "tap2_pos", "tap2_neutral", "tap2_step_percent", "tap2_side"):
+        a_, b_ = netA.trafo.iloc[0].get(col), netB.trafo.iloc[0].get(col)
+        if not _eq(a_, b_):
+            ctx.failure(f"create-missing:trafo:{col}", f"create_transformer(custom type with second tap changer) sets {col}={a_!r}, "
+                                                       f"create_transformer_from_parameters with the same values {b_!r}", {"std_type": ty})
+            return
+    with core.quiet():
+        pp.runpp(netA)
+        pp.runpp(netB)
+    d = res_equal(netA, netB, ["res_bus", "res_trafo"])
+    if d:
+        ctx.failure("behaviour:trafo", f"trafo from a custom type with second tap changer vs explicit parameters: {d}", {"std_type": ty})
+
+
 def check_trafo3w_type(ctx, pp, name, ty):
     netA, b = small_net(pp, vn_hv=ty["vn_hv_kv"], vn_lv=ty["vn_lv_kv"], vn_mv=ty["vn_mv_kv"])
     netB = copy.deepcopy(netA)
@@ -211,6 +243,9 @@ def registry_history(ctx, pp, rng, n_ops):
     def mkdata():
         counter[0] += 1
         d = {"r_ohm_per_km": counter[0] / 100., "x_ohm_per_km": 0.1, "c_nf_per_km": 10., "max_i_ka": 0.2}
+        for opt, val in (("g_us_per_km", 2.0), ("q_mm2", 150), ("type", "cs")):
+            if rng.random() < 0.4:
+                d[opt] = val          # (a later definition under the same name may have fewer keys: nothing of the old one may survive)
         datas[counter[0]] = d
         return counter[0], d
     ops = []
@@ -289,6 +324,11 @@ def run(ctx):
                                                   f"{type(e).__name__}: {e}", {"std_type": name})
             ctx.count((el, name))
             ctx.hist("std_type_element", el)
+    for _ in range(3):
+        try:
+            check_second_tap_changer(ctx, pp, rng)
+        except Exception as e:     # noqa
+            ctx.failure("create-error:trafo", f"custom type with a second tap changer: {type(e).__name__}: {e}", {"std_type": "verif_2tap"})
     # random types: sentinel types carry every key (ties the Lean key lists to the code, as in C24)
     base = c24.base_net()
     c24.add_custom_types(base)
